@@ -173,7 +173,8 @@ def parse_tags(text):
     for line in text.splitlines():
         parser.line += 1
         line = line.strip()
-        if not line:
+        if not line or line.startswith("#"):
+            # -- SKIP: Empty lines and comment lines.
             continue
         if not line.startswith("@"):
             raise ParserError(u"tag: %s" % line, parser.line)
@@ -884,44 +885,69 @@ class Parser(object):
                 raise ParserError(message, self.line, self.filename)
         return tags
 
-    def parse_step(self, line):
+    def _select_step_keyword(self, line):
+        """Select the step keyword that this line starts with.
+
+        A keyword may be the begin of a longer keyword of another step type
+        (in language "ht": "Lè " (when) and "Lè sa a " (then)).
+        Therefore, the longest matching keyword is used,
+        among equally long ones the one that matches as it is written.
+
+        :return: (step_type, keyword) if a keyword matches, None otherwise.
+        """
+        selected = None
+        selected_rank = None
+        lowercase_line = line.lower()
         for step_type in ("given", "when", "then", "and", "but"):
             for kw in self.keywords[step_type]:
                 # try to match the keyword; also attempt a purely lowercase
                 # match if that'll work
-                if not (line.startswith(kw) or
-                        line.lower().startswith(kw.lower())):
+                exact_match = line.startswith(kw)
+                if not (exact_match or
+                        lowercase_line.startswith(kw.lower())):
                     # -- CASE: Line does not start w/ a step-keyword.
                     continue
+                # -- PREFER: Longer keyword, then keyword as it is written
+                # ("Sipoze Ke " and "Sipoze ke " are both keywords in "ht").
+                rank = (len(kw), exact_match)
+                if selected is None or rank > selected_rank:
+                    selected = (step_type, kw)
+                    selected_rank = rank
+        return selected
 
-                # -- HINT: Trailing SPACE is used for most keywords.
-                # BUT: Keywords in some languages (like Chinese, Japanese, ...)
-                #      do not need a whitespace as word separator.
-                step_text_after_keyword = line[len(kw):].strip()
-                if kw.startswith("*") and self.last_step_type:
-                    # -- CASE: Generic steps and Given/When/Then steps are mixed.
-                    # HINT: Inherit step type from last step.
-                    step_type = self.last_step_type
-                elif step_type in ("and", "but"):
-                    if not self.last_step_type:
-                        # -- BEST-EFFORT: Try to use last background.step.
-                        self.last_step_type = self._select_last_background_step_type()
-                        if not self.last_step_type:
-                            msg = u"{step_type}-STEP REQUIRES: An previous Given/When/Then step."
-                            raise ParserError(msg.format(step_type=step_type.upper()),
-                                              self.line, self.filename)
+    def parse_step(self, line):
+        selected = self._select_step_keyword(line)
+        if not selected:
+            return None
 
-                    assert self.last_step_type is not None
-                    step_type = self.last_step_type
-                    assert step_type is not None
-                else:
-                    self.last_step_type = step_type
+        step_type, kw = selected
+        # -- HINT: Trailing SPACE is used for most keywords.
+        # BUT: Keywords in some languages (like Chinese, Japanese, ...)
+        #      do not need a whitespace as word separator.
+        step_text_after_keyword = line[len(kw):].strip()
+        if kw.startswith("*") and self.last_step_type:
+            # -- CASE: Generic steps and Given/When/Then steps are mixed.
+            # HINT: Inherit step type from last step.
+            step_type = self.last_step_type
+        elif step_type in ("and", "but"):
+            if not self.last_step_type:
+                # -- BEST-EFFORT: Try to use last background.step.
+                self.last_step_type = self._select_last_background_step_type()
+                if not self.last_step_type:
+                    msg = u"{step_type}-STEP REQUIRES: An previous Given/When/Then step."
+                    raise ParserError(msg.format(step_type=step_type.upper()),
+                                      self.line, self.filename)
 
-                keyword = kw.rstrip()  # HINT: Strip optional trailing SPACE.
-                step = model.Step(self.filename, self.line,
-                                  keyword, step_type, step_text_after_keyword)
-                return step
-        return None
+            assert self.last_step_type is not None
+            step_type = self.last_step_type
+            assert step_type is not None
+        else:
+            self.last_step_type = step_type
+
+        keyword = kw.rstrip()  # HINT: Strip optional trailing SPACE.
+        step = model.Step(self.filename, self.line,
+                          keyword, step_type, step_text_after_keyword)
+        return step
 
     def _select_last_background_step_type(self):
         # -- CASES:
